@@ -85,7 +85,10 @@ def run_one_slot(bank, path, slot):
             fired = c.returncode == 1 and "VIOLATION property=" + pid in out
             results[pid] = {"rc": c.returncode, "fired": fired}
             if bank == "violations":
-                named = all(any(alt in out for alt in e.split("|")) for e in meta["expect"]) if meta["expect"] else True
+                # the expected rule must be named on a violation line ("  rule R08.1 instance ..." / anchor-lost /
+                # floor), not merely listed among the rules that passed
+                vio = "\n".join(l for l in out.splitlines() if l.startswith("  rule "))
+                named = all(any(re.search(r"^  rule " + re.escape(alt), vio, re.M) for alt in e.split("|")) for e in meta["expect"]) if meta["expect"] else True
                 build_failed = "build-failed" in out
                 if not fired or not named or build_failed:
                     ok = False
